@@ -39,11 +39,12 @@ func init() {
 			{Name: "S-BLOCK/scripted-fetch", Weight: 15, Run: c04ScriptedFetch},
 			{Name: "S-BLOCK/scripted-client-upload", Weight: 3, Run: c04ScriptedClientUpload},
 			{Name: "S-BLOCK/scripted-slow-fetch-from-server", Weight: 3, Run: c04ScriptedSlowFetchFromServer},
+			{Name: "S-BLOCK/scripted-upload-at-deadline", Weight: 3, Run: c04ScriptedUploadAtDeadline},
 			{Name: "S-BLOCK/huge-upload", Weight: 1, Run: c04HugeUpload},
 		},
 		Quick:    150000,
 		Thorough: 1500000,
-		Require:  []string{"fetch.restartWhileCached", "upload.blockNumberNeedsThreeBytes", "transfer.multiBlock", "transfer.completed", "transfer.failed", "block.staleReplay", "block.etagChange", "block.outOfOrder", "block.staleAfterCompletion", "block.foreignTokenDiffersOnlyInLength", "dgram.drop", "dgram.dup", "time.transferTimeout", "oneway.nonConfirmable", "clientUpload.peerGoesAway", "slowFetch.longerThanTheTransferTimeout"},
+		Require:  []string{"fetch.restartWhileCached", "upload.blockNumberNeedsThreeBytes", "transfer.multiBlock", "transfer.completed", "transfer.failed", "block.staleReplay", "block.etagChange", "block.outOfOrder", "block.staleAfterCompletion", "block.foreignTokenDiffersOnlyInLength", "dgram.drop", "dgram.dup", "time.transferTimeout", "oneway.nonConfirmable", "clientUpload.peerGoesAway", "slowFetch.longerThanTheTransferTimeout", "uploadAtDeadline.continueArrivesInTheInstantOfTheDeadline"},
 		Assume: []string{
 			"the property does not promise success: a failed transfer is never a violation; completion in fault-free runs is reported as a probe (transfer.completed vs transfer.failed)",
 			"stream endpoints get an injected, well-formed CSM with Block-Wise-Transfer (any RFC 8323 peer may send it); two go-coap stream endpoints would otherwise never use block-wise with each other",
